@@ -584,3 +584,32 @@ def twin_union_cases(rng):
                 for v in vals:
                     out.append((term, wrapv(v)))
     return out
+
+
+def subclass_union_cases(rng):
+    """untagged unions that list a dataclass and one of its subclasses, in both orders, at top level, as list element, with None,
+    and as (list-typed) fields of an enclosing dataclass; values for the base and for the subclass.  A subclass instance is not
+    a base instance for serialisation: each value must be written by its own class."""
+    import terms
+    out = []
+    for out_fmt in ('struct', 'tuple'):
+        base_spec = {'name': terms.fresh_name('Shape'), 'fields': [{'name': 'name', 'ty': ('scalar', 'str')}],
+                     'opts': {'out_format': out_fmt}, 'hook': None}
+        base_cls = terms.make_class(base_spec)
+        sub_spec = {'name': terms.fresh_name('Circle'), 'fields': [{'name': 'radius', 'ty': ('scalar', 'float')}],
+                    'opts': {'out_format': out_fmt}, 'hook': None, 'bases': (base_cls,), '_parent_spec': base_spec}
+        b, s = ('class', base_spec), ('class', sub_spec)
+        vals = [{'name': 'c', 'radius': 2.0}, {'name': 's'}, {'name': 'c', 'radius': 1}]
+        if out_fmt == 'tuple':
+            vals += [['c', 2.5], ['s']]
+        for ms in ([b, s], [s, b]):
+            u = ('union', list(ms))
+            holder = {'name': terms.fresh_name('Drawing'), 'fields': [{'name': 'item', 'ty': u}, {'name': 'items', 'ty': ('seq', 'list', u), 'default': ('factory', [])}],
+                      'opts': {}, 'hook': None}
+            for v in vals:
+                out.append((u, v))
+                out.append((('seq', 'list', u), [v, v]))
+                out.append((('union', list(ms) + [('none',)]), v))
+                out.append((('dict', ('scalar', 'str'), u), {'k': v}))
+                out.append((('class', holder), {'item': v, 'items': [v]}))
+    return out
